@@ -231,6 +231,8 @@ type verifOutage struct {
 	wait   chan struct{}
 	Writes []verifSQLOp
 	Reads  int
+	// FailFast: statements fail immediately at prepare/begin (connection refused, closed handle) instead of hanging
+	FailFast bool
 }
 
 func newVerifOutage() *verifOutage { return &verifOutage{wait: make(chan struct{})} }
@@ -253,6 +255,12 @@ func (g *verifOutage) Hook(op verifSQLOp) error {
 			return errVerifInjected
 		}
 		g.Reads++
+		if g.FailFast {
+			// the other face of an outage: the server refuses at once (connection refused / closed handle) instead of
+			// not answering
+			g.mu.Unlock()
+			return errVerifInjected
+		}
 	}
 	g.mu.Unlock()
 	if closed {
